@@ -213,17 +213,23 @@ def setUpdate (ret now : Int) (s : Store) (b : Sil) (big : Bool) : Except Err Se
   let r := setSilence now s (toMesh ret b)
   .ok { store := r.1, id := b.id, bcasts := bcastOf r.2 (toMesh ret b), inPlace := true }
 
+/-- `Set` expires the silence it replaces (a no-op when that one has already expired) -/
+def expirePrev (ret now : Int) (s : Store) : Option Mesh → Store × List Mesh
+  | some p => expireCore ret now s p.sil
+  | none => (s, [])
+
+/-- the new silence: fresh id, start raised to now -/
+def raised (b : Sil) (newId : String) (now : Int) : Sil :=
+  { b with id := newId, start := if b.start < now then now else b.start }
+
 /-- the branch of `Set` that draws a new id (after expiring the replaced silence, if any) -/
 def setCreate (ret : Int) (maxSil : Nat) (now : Int) (s : Store) (prev : Option Mesh) (b : Sil)
     (newId : String) (big : Bool) : Except Err SetOk :=
   if maxSil > 0 ∧ s.st.length + 1 > maxSil then .error .limit else
-  let b' : Sil := { b with id := newId, start := if b.start < now then now else b.start }
   if big then .error .tooBig else
-  let r1 := match prev with
-    | some p => expireCore ret now s p.sil      -- no-op when already expired
-    | none => (s, [])
-  let r2 := setSilence now r1.1 (toMesh ret b')
-  .ok { store := r2.1, id := newId, bcasts := r1.2 ++ bcastOf r2.2 (toMesh ret b'), inPlace := false }
+  let r1 := expirePrev ret now s prev
+  let r2 := setSilence now r1.1 (toMesh ret (raised b newId now))
+  .ok { store := r2.1, id := newId, bcasts := r1.2 ++ bcastOf r2.2 (toMesh ret (raised b newId now)), inPlace := false }
 
 def canUpdatePrev (prev : Option Mesh) (b : Sil) (now : Int) : Bool :=
   match prev with
